@@ -6,6 +6,7 @@ HERE = os.path.dirname(os.path.dirname(os.path.abspath(__file__)))
 R = "Engine R: the real generic varpro/nalgebra code is executed on a symbolic real scalar (operator-level symbolic execution); every output element is an SMT term; obligations `path condition AND assumptions AND NOT property` are decided by z3 4.8.12 / z3 5.1 / cvc5 (QF_NRA / QF_UFNRA, plain and fraction-free encodings); all feasible paths are explored by flipping recorded branch decisions; counterexamples are replayed natively on f64 (dev and release) before a VIOLATION is printed"
 K = "Engine K: Kani 0.68 / CBMC 6.11 proof harnesses compiled inside an overlay copy of the crate (private state reachable), bounded by #[kani::unwind], unwinding assertions on"
 M = "Engine M: symbolic execution of the nightly MIR of the listed functions (64-bit bit-vectors for usize, uninterpreted model calls with symbolic fault Booleans), all paths, decided by z3; paths and counterexamples replayed natively"
+N = "Engine N (supplementary, NOT solver-based): native runs of the real build on f64/f32 under a watchdog -- non-finite/extreme inputs, a model failure at every call index, all termination reasons, builder decision table on small sizes; adds detection power and replayable inputs, never the deciding step"
 REAL = "decided over the reals (IEEE rounding/overflow outside the claim); SVD for M>=2 replaced by a planted exact factorisation whose input matrix is proved equal to W*Phi; frames exact rational, shapes bounded (N<=4, M<=3, S<=3, P<=2 quick); trusted: rustc, nalgebra generic kernels, z3/cvc5, the Sym scalar (validated against native f64 runs each time)"
 
 CHECKS = {
@@ -40,9 +41,9 @@ CHECKS = {
  "C14": dict(tech="symbolic execution of try_calculate + SMT", engines=[R, K],
              text="unscaled band sigma_i^2 == j_i^T Cov j_i with j_i a row of the UN-weighted [Phi | D_k c] for all values.", note=REAL + "; the Student-t quantile itself (distrs) and the data flow t((1+p)/2, dof)*sigma_i are Engine K's part once registered"),
  "C15": dict(tech="real builder executed on symbolic scalars; EUF obligations for accepted models; bounded enumeration of call sequences for acceptance", engines=[R],
-             text="REDUCED SCOPE: acceptance is decided by hash sets over concrete strings, which no available symbolic engine carries (measured). 50+ call sequences with one or two known defects each (every error kind, sticky errors, any order of x/initial-guess) are run through the real builder: accepted iff valid, error kind among the defects present; accepted models are then decided symbolically as in C16.", note="acceptance part is an enumeration, not a solver verdict; names/arity clauses outside the enumerated sequences are not decided"),
+             text="REDUCED SCOPE: acceptance is decided by hash sets over concrete strings, which no available symbolic engine carries (measured). A reference predicate written from the property statement classifies builder call sequences; ~50 hand-written sequences (every error kind, sticky errors, any order of x/initial-guess) and a systematic enumeration (every sequence of 1..3 functions over ordered subsets of 2..3 model parameters plus single-defect mutants: 229 quick / 1281 thorough) are run through the real builder: accepted iff valid, error kind among the defects present; accepted models are then decided symbolically as in C16.", note="acceptance part is an enumeration, not a solver verdict; names/arity clauses outside the enumerated sequences are not decided"),
  "C16": dict(tech="symbolic execution with uninterpreted basis functions + SMT (EUF)", engines=[R, K],
-             text="For every enumerated program (all ordered subsets up to arity 3 of up to 3 (quick) / 4 (thorough) model parameters, every derivative order, invariant functions at rotating positions, arities 4..10 by rotation) and ALL parameter values and ALL basis functions: eval column j == f_j(x, params by name), derivative column == the supplied derivative or exactly 0, params round-trip.", note="programs enumerated (exhaustive within the stated bound), values and functions universally quantified; parametric in the scalar type"),
+             text="For every enumerated program (all ordered subsets up to arity 3 of up to 3 (quick) / 4 (thorough) model parameters, every derivative order, invariant functions at rotating positions; per arity 4..10: rotation, reversal, inner permutations with fixed endpoints, adjacent swaps, seeded random permutations, strict subsets with gaps of a larger list) and ALL parameter values and ALL basis functions: eval column j == f_j(x, params by name), derivative column == the supplied derivative or exactly 0, params round-trip.", note="programs enumerated (exhaustive within the stated bound), values and functions universally quantified; parametric in the scalar type"),
  "C17": dict(tech="symbolic execution with uninterpreted basis functions + SMT (EUF); facts per program", engines=[R, K],
              text="Wrong output lengths (N-1, N+1, 0) at function / invariant / derivative positions give UnexpectedFunctionOutput{N, actual}; index >= P gives DerivativeIndexOutOfBounds; wrong parameter counts give IncorrectParameterCount and leave params and all evaluations (terms) unchanged; shapes N x M.", note="programs enumerated; values universally quantified"),
  "C18": dict(tech="symbolic execution of the real builder + SMT", engines=[R, M],
@@ -88,6 +89,7 @@ def main():
         "engines": [
             {"name": "R", "path": "/verif/engine_r", "serves_properties": sorted(k for k, c in CHECKS.items() if R in c["engines"]), "kind_free_text": R},
             {"name": "K", "path": "/verif/engine_k", "serves_properties": sorted(k for k, c in CHECKS.items() if K in c["engines"]), "kind_free_text": K},
+            {"name": "N", "path": "/verif/engine_r/harness/src/scen_native.rs", "serves_properties": ["C04", "C08", "C09", "C12", "C18"], "kind_free_text": N},
             {"name": "M", "path": "/verif/engine_m", "serves_properties": sorted(k for k, c in CHECKS.items() if M in c["engines"]), "kind_free_text": M},
         ],
         "checks": checks,
